@@ -106,10 +106,18 @@ Proof.
   - assert (Z.of_nat i < q) by nia. lia.
 Qed.
 
+Lemma zrange_from_eq x step n :
+  zrange_from x step n = map (fun i => x + Z.of_nat i * step) (seq 0 n).
+Proof.
+  revert x. induction n as [|n IH]; intros x; [reflexivity|].
+  cbn [zrange_from]. rewrite IH. cbn [seq map]. f_equal; [lia|].
+  rewrite <- seq_shift, map_map. apply map_ext. intros i. lia.
+Qed.
+
 Lemma in_pyrange lo hi step x : 0 < step ->
   (In x (pyrange lo hi step) <-> exists i, 0 <= i /\ x = lo + i * step /\ x < hi).
 Proof.
-  intros Hs. unfold pyrange. rewrite in_map_iff. split.
+  intros Hs. unfold pyrange. rewrite zrange_from_eq, in_map_iff. split.
   - intros (i & <- & Hi). apply in_seq in Hi. exists (Z.of_nat i). split; [lia|]. split; [reflexivity|].
     apply nsteps_lt; [assumption|lia].
   - intros (i & Hi & -> & Hlt). exists (Z.to_nat i). rewrite Z2Nat.id by lia. split; [reflexivity|].
@@ -126,7 +134,7 @@ Proof.
 Qed.
 
 Lemma pyrange_sorted lo hi step : 0 < step -> StronglySorted Z.lt (pyrange lo hi step).
-Proof. intros Hs. apply map_seq_sorted. intros i j Hij. nia. Qed.
+Proof. intros Hs. unfold pyrange. rewrite zrange_from_eq. apply map_seq_sorted. intros i j Hij. nia. Qed.
 
 Lemma filter_sorted {A} (R : A -> A -> Prop) p l :
   StronglySorted R l -> StronglySorted R (filter p l).
